@@ -7,7 +7,7 @@
 From Coq Require Import List ZArith Bool Lia.
 From SVC Require Import Base.AMap Base.Res Base.Dec Model.Types Model.Pricing
   Model.Handlers Model.EndBlock Model.Step Proofs.Inv Proofs.Lemmas Proofs.ReqLemmas
-  Proofs.CtxOps Proofs.TraceLemmas Proofs.TraceSettle.
+  Proofs.CtxOps Proofs.TraceLemmas Proofs.TraceSettle Proofs.WdLemmas.
 Import ListNotations.
 Open Scope Z_scope.
 
@@ -251,10 +251,10 @@ Proof. destruct (coins_empty dep); intros H; [inv_ok H; subst; apply MV_refl|eap
 
 (* every successful operation except the plain bank send *)
 Theorem only_events_move_money cfg s o s' :
-  handle cfg s o = Ok s' -> (forall f t a, o <> OTransfer f t a) ->
+  I_wd s -> handle cfg s o = Ok s' -> (forall f t a, o <> OTransfer f t a) ->
   exists d, log s' = d ++ log s /\ forall x, bal s' x = bal s x + evs_delta d x.
 Proof.
-  intros H Hnt. change (MV s s').
+  intros Hwd H Hnt. change (MV s s').
   destruct o; cbn [handle] in H.
   - unfold h_define in H. inv_ok H. destruct (get svc (defs s)); inv_ok H. subst. mv_frame.
   - unfold h_bind in H. inv_ok H. sproj.
@@ -282,7 +282,7 @@ Proof.
   - apply h_kill_spec in H. destruct H as (rc0 & _ & _ & _ & _ & ->). mv_frame.
   - apply h_update_ctx_spec in H.
     destruct H as (rc0 & capo & _ & _ & _ & _ & _ & _ & _ & _ & _ & ->). mv_frame.
-  - unfold h_withdraw in H. inv_ok H. destruct (prov =? 0).
+  - unfold h_withdraw in H. rewrite (withdraw_dacct s owner Hwd) in H. inv_ok H. destruct (prov =? 0).
     + inv_ok H. subst.
       eapply MV_trans; [|eapply MV_transfer; [exact Ha|reflexivity|reflexivity|intros x; reflexivity]].
       mv_frame.
